@@ -1737,7 +1737,7 @@ theorem convert_interrupted_main (nm : List Desc → String)
         have := key2 n hl2
         rw [hl] at this; cases this
 
-/-! ## the recorded children after a conversion are those a reload computes (repair F33) -/
+/-! ## the recorded children after a conversion are those a reload computes (repair F34) -/
 
 /-- two states of the child scan that differ in the annotations of the queued descriptors and in a prefix `c0` of
     the children recorded so far -/
